@@ -16,6 +16,13 @@ GEN  : every terminal behaviour TLC reached (program, fault plan(s), predicted b
        the pools.  Verdicts come from the property (prefix, nil => complete, fault => error wrapping the
        cause, templ.Error file/line, nothing evaluated after an error, later renders unaffected);
        differences from the model's exact prediction are model drift.
+BYTES: the root package's second pool (templ.GetBuffer / ReleaseBuffer: bytes.Buffer objects that come back from
+       the pool with whatever they held) and its users templ.ToGoHTML and the buffered templ.Handler are modelled in
+       spec/RenderIOBytes.tla (NoCarryOver, PooledBuffersAreEmpty, Exact; negative configs "Put without Reset on
+       ToGoHTML's error path" and "ReleaseBuffer without Reset" must be rejected by NoCarryOver and by Exact).  Every
+       TLC-generated sequence of (entry point, component, fail after k chunks | ok) is replayed on the real entry
+       points on one goroutine over the real shared pool and each result compared with the solo document; the
+       verifBytesPool hook events must show that Get really returned the object of the preceding Put.
 VAL  : the `verif` pool hooks (hooks/C10-pool.diff) record acquire/existing/flush/release events during
        the replays and during the repository's own error/cancel fixtures (all fault offsets); TLC validates
        them against the pool protocol (TraceRenderPool.tla).
@@ -32,6 +39,9 @@ NEG = {  # seeded defect -> invariants that may reject it
     "nocheckcall": {"Prefix", "NilMeansComplete", "FaultMeansError", "FailStop"},
     "nochecklit": {"FailStop"},
 }
+
+
+BNEG = {"gohtml_err_put_noreset", "release_noreset"}   # RenderIOBytes.tla: seeded defects of the bytes.Buffer pool protocol
 
 
 SYNTHETIC_BAD_TRACE = "".join(json.dumps(dict(seq=i + 1, ev=ev, pool="runtime", buf=b, g=1, r=1, w=1, dirty=False, err="")) + "\n"
@@ -142,11 +152,20 @@ def main():
         "big": dict(module="MCRenderIOBig", cfg="d.cfg", workers=8 if thorough else 2, timeout=1500,
                     files={"d.cfg": cfg("RenderIO_big.cfg", Emit="= TRUE"), "MCRenderIOBig.tla": big_text}),
     }
+    bl = "= {1, 2, 3}" if thorough else "= {2}"
+    jobs["bmc"] = dict(module="RenderIOBytes", cfg="e.cfg", workers=8 if thorough else 2, timeout=1500,
+                       files={"e.cfg": cfg("RenderIOBytes_mc.cfg", DocLens=bl)})
+    jobs["bgen"] = dict(module="RenderIOBytes", cfg="f.cfg", workers=1, timeout=1500,
+                        files={"f.cfg": cfg("RenderIOBytes_mc.cfg", DocLens=bl, PoolAny="= FALSE", Emit="= TRUE")})
+    for bug in sorted(BNEG):
+        for inv, base in (("NoCarryOver", "RenderIOBytes_neg.cfg"), ("Exact", "RenderIOBytes_negexact.cfg")):
+            jobs["bneg-%s-%s" % (bug, inv)] = dict(module="RenderIOBytes", cfg="n.cfg", workers=1, timeout=600,
+                                                   files={"n.cfg": cfg(base, Bug='= "%s"' % bug)})
     for bug in NEG:
         jobs["neg-" + bug] = dict(module="MCRenderIO", cfg="n.cfg", workers=1, timeout=600,
                                   files={"n.cfg": cfg("RenderIO_neg.cfg", Bug='= "%s"' % bug)})
     results = {}
-    with cf.ThreadPoolExecutor(max_workers=12) as ex:
+    with cf.ThreadPoolExecutor(max_workers=16) as ex:
         fb = ex.submit(build)
         futs = {name: ex.submit(vlib.tlc, j.pop("module"), j.pop("cfg"), **j) for name, j in jobs.items()}
         for name, f in futs.items():
@@ -165,7 +184,19 @@ def main():
         r = results["neg-" + bug]
         if r.violated not in allowed:
             raise vlib.InfraError("negative config Bug=%s was not rejected (%s): the invariants are vacuous" % (bug, r.violated))
-    ck.set("negative_configs_rejected", sorted(NEG))
+    for name in ("bmc", "bgen"):
+        r = results[name]
+        if not r.ok:
+            raise vlib.InfraError("RenderIOBytes model (%s) does not satisfy its invariants (%s): spec and code model disagree"
+                                  % (name, r.violated))
+        ck.add_tlc(r, "RenderIOBytes " + name)
+    for bug in sorted(BNEG):
+        for inv in ("NoCarryOver", "Exact"):
+            r = results["bneg-%s-%s" % (bug, inv)]
+            if r.violated != inv:
+                raise vlib.InfraError("negative config RenderIOBytes Bug=%s was not rejected by %s (%s): the invariant is vacuous"
+                                      % (bug, inv, r.violated))
+    ck.set("negative_configs_rejected", sorted(NEG) + sorted("bytespool:" + b for b in BNEG))
 
     # ---- GEN: every terminal behaviour replayed on real generated code --------------------------
     cases = []
@@ -230,6 +261,42 @@ def main():
         ck.set("model_drift_cases", total["drift"])
         ck.set("programs_whose_document_differs_from_the_model", total["doc_drift_programs"])
 
+    # ---- BYTES: sequences over the root package's bytes.Buffer pool on ToGoHTML / the buffered handler ----
+    bcases = {}
+    for c in results["bgen"].tagged("BCASE"):
+        bcases.setdefault(json.dumps([r["op"] for r in c["runs"]], sort_keys=True), c)
+    bcases = [bcases[k] for k in sorted(bcases)]
+    if len(bcases) < 1000:
+        raise vlib.InfraError("only %d bytes-pool behaviours emitted by RenderIOBytes" % len(bcases))
+    random.Random(ck.seed).shuffle(bcases)     # the pool is shared across sequences too: seeded order
+    bpath = os.path.join(sc, "bcases.ndjson")
+    vlib.write_ndjson(bpath, bcases)
+    bev = os.path.join(sc, "events-bytes.ndjson")
+    p = vlib.run([binp, "bytespool", bpath, str(ck.seed), bev], check=False, timeout=1500)
+    sb = vlib.harness_results(ck, p, "bytes.Buffer pool: ")
+    if sb["cases"] != len(bcases) or sb["renders"] != sum(len(c["runs"]) for c in bcases):
+        raise vlib.InfraError("bytes-pool harness replayed %s of %d emitted behaviours" % (sb["cases"], len(bcases)))
+    want_kinds = ["%s/%s/%s" % (e, k, o) for e in ("gohtml", "handler") for k in ("func", "templ") for o in ("ok", "fail")]
+    if [k for k in want_kinds if not sb["plan_kinds"].get(k)]:
+        raise vlib.InfraError("bytes-pool entry point / component / outcome combinations never replayed: %s" % sb["plan_kinds"])
+    if sb["gets"] < sb["renders"] or sb["puts"] < sb["renders"] - sb["fails"]:
+        raise vlib.InfraError("verifBytesPool hook silent: %d gets / %d puts for %d renders" % (sb["gets"], sb["puts"], sb["renders"]))
+    if sb["reuse"] < 1 or (sb["reuse_after_failed_with_output"] < 1 and not sb["fails"]):
+        raise vlib.InfraError("sync.Pool never handed the object of the preceding Put to the next Get (%d of %d gets; %d after a "
+                              "failed render with output): the renders did not share buffers, nothing was learnt about carry-over"
+                              % (sb["reuse"], sb["gets"], sb["reuse_after_failed_with_output"]))
+    traces.append(bev)
+    ck.set("bytes_pool_behaviours_replayed", sb["cases"])
+    ck.set("bytes_pool_renders_on_real_code", sb["renders"])
+    ck.set("bytes_pool_get_returned_object_of_preceding_put", "%d of %d gets (%d right after a failed render that had written output)"
+           % (sb["reuse"], sb["gets"], sb["reuse_after_failed_with_output"]))
+    ck.set("bytes_pool_kinds", sb["plan_kinds"])
+    # binding self-test: the harness itself leaves bytes in the pooled object (write after release) -> must be reported
+    p = vlib.run([binp, "bytespool", vlib.write_ndjson(os.path.join(sc, "bself.ndjson"), bcases[:20]), "1",
+                  os.path.join(sc, "bself-ev.ndjson"), "poison"], check=False)
+    if b'"sig":"NoCarryOver"' not in p.stdout:
+        raise vlib.InfraError("binding self-test: bytes left in the pooled bytes.Buffer were not reported by the harness")
+
     # binding self-test: corrupted expectations must be reported by the harness
     # (a wrong evaluation count as a violation, a wrong document / sink as model drift)
     victim = next(c for c in cases if c["cap"] == caps[0] and len(c["runs"]) == 1 and c["runs"][0]["evals"] >= 1
@@ -259,7 +326,7 @@ def main():
                               (rep[0]["lines"] if rep else "?", len(lines)))
     rep = rep[0]
     ck.add_tlc(tr, "TraceRenderPool (pool events of the replays)")
-    if min(rep["cnt"][k] for k in ("acquire", "existing", "flush", "release", "begin", "end")) < 50:
+    if min(rep["cnt"][k] for k in ("acquire", "existing", "flush", "release", "begin", "end", "get", "put")) < 50:
         raise vlib.InfraError("too few pool events of some kind recorded: %s" % rep["cnt"])
     for v in rep["viol"][:20]:
         e = evs[v["line"] - 1]
@@ -280,14 +347,16 @@ def main():
         raise vlib.InfraError("trace self-test: a trace with Put before the flush was not rejected as UseAfterRelease")
     ck.set("trace_selftest", "Put-before-flush trace rejected")
 
-    ck.set("traces_validated_against_impl", total["renders"] + sfx["renders"])
+    ck.set("traces_validated_against_impl", total["renders"] + sfx["renders"] + sb["renders"])
     ck.set("exhaustive", True)
     ck.set("bounds", {"exhaustive_programs": "op grammar {L1,L3,E1,E4,leaf2,slot,call,cb,flush,join} up to %d ops / depth 3 at Cap=2; "
                                              "{L1,L2,L5,E2,E4,leaf4,...} up to %d ops at Cap=3" % ((4, 3) if thorough else (3, 2)),
                       "random_programs": "%d seeded programs of 3..6 ops, depth <= 3, Cap 2 and 3" % nbig,
                       "faults": "writer fault at every offset 0..len x {err, short, zero}; every expression / leaf component failing; "
                                 "ctx cancelled before start / by expression j; pairs writer x (expression|leaf)",
-                      "sequences": "3 renders (any fault, any fault, none), pool Get nondeterministic, programs up to 2 ops"})
+                      "sequences": "3 renders (any fault, any fault, none), pool Get nondeterministic, programs up to 2 ops",
+                      "bytes_pool": "all sequences of 3 renders over {ToGoHTML, buffered Handler} x {ComponentFunc, generated template} x "
+                                    "documents of %s chunks x {ok, error after k = 0..n chunks}" % bl[2:]})
     ck.set("rule", "every terminal state of the TLC runs (program x cap x StringWriter? x fault plan [x 3-render sequence]) replayed on real "
                    "generated code; distinct = distinct (program, cap, sw, plans) tuples")
     ck.assume("runtime.DefaultBufferSize is set to the model's Cap (2 or 3 bytes) before the first Buffer exists; the protocol does not "
@@ -295,6 +364,8 @@ def main():
     ck.assume("a short or zero write without error (io.Writer contract violation) is followed by (0, error) on every later call; "
               "a writer that returns (0, nil) forever makes bufio.Writer loop, which is outside the property")
     ck.assume("expression/leaf faults are identified by evaluation order; documents are ASCII (EscapeString is the identity on them)")
+    ck.assume("bytes.Buffer pool replay: all renders run on one goroutine, so sync.Pool's per-P slot returns the object of the last Put; "
+              "measured from the hook events (fails closed if it never happened)")
     ck.assume("programs are instances of the interp combinator: every component of a program is a generated template")
     ck.finish()
 
